@@ -58,13 +58,15 @@ namespace pika::concurrency::detail {
             //      the nature of execution will still remain the
             //      same.
             do {
+#if defined(PIKA_VERIF)
                 util::yield_while(
                     [this] {
-#if defined(PIKA_VERIF)
                         PIKA_VERIF_POINT(610, this);    // before the relaxed load of the spin loop
-#endif
                         return is_locked();
                     },
+#else
+                util::yield_while([this] { return is_locked(); },
+#endif
                     "pika::concurrency::detail::spinlock::lock", false);
             } while (!acquire_lock());
 
@@ -101,13 +103,15 @@ namespace pika::concurrency::detail {
         }
 
         // relinquish lock
+#if defined(PIKA_VERIF)
         PIKA_FORCEINLINE void relinquish_lock()
         {
-#if defined(PIKA_VERIF)
             PIKA_VERIF_POINT(612, this);    // before the releasing store
-#endif
             v_.store(false, std::memory_order_release);
         }
+#else
+        PIKA_FORCEINLINE void relinquish_lock() { v_.store(false, std::memory_order_release); }
+#endif
 
         PIKA_FORCEINLINE bool is_locked() const { return v_.load(std::memory_order_relaxed); }
     };
